@@ -9,9 +9,14 @@
    binary with real SIGTERM and SIGHUP (process-level traces validated against UpgradeTrace).
    spec/server/Handover.tla (+Trace): one connection at byte granularity through the hot-upgrade hand-over inside one
    process (two server instances, real TransferServer), incl. the new instance's listener lookup for every way of
-   writing the listener address x address family of the client."""
+   writing the listener address x address family of the client.
+   checks/stage_part.py, spec/server/StageManager.tla (+ StageRules, StageManagerTrace): the stage manager's life cycle over
+   histories of up to three life-cycle events (failed / successful upgrade, reload with fork failure or a silent new server,
+   SIGTERM, SIGINT, repeated and overlapping), one process per history on the real pkg/stagemanager; plus the graceful stop
+   after an attempt that did not come off end to end (real stage manager + real Mosn, request in flight)."""
 import concurrent.futures, json, os, random, re, shutil, subprocess, tempfile, time
 import vlib
+import stage_part
 
 LEVEL = "model_checking"
 PROTOS = ("http1", "bolt", "http2")
@@ -263,6 +268,8 @@ def run(ctx):
     ctx.cov["distinct_nontrivial"] = sum(1 for c in cases if any(v["ph"] != "idle" for v in c["conns"].values()))
     # ---------- 4. hot-upgrade hand-over, in process
     handover_part(ctx, binary, rnd)
+    # ---------- 5. the stage manager: histories of several life-cycle events (failed upgrade, then SIGTERM ...), one process each
+    stage_part.run(ctx, binary, validate)
     ctx.cov["rule"] = ("a case = one signal point of Shutdown.tla (2 connections x up to 2 requests x phase of the current request "
                        "in {idle,hdr,body,wait,resp}, connections interchangeable) x environment mode (prompt / stalled until exit) x "
                        "protocol (HTTP/1.1, bolt, HTTP/2), realised on a live in-process MOSN; plus one hand-over case of Handover.tla = protocol "
